@@ -28,7 +28,7 @@ func condKey(v ssa.Value) string {
 
 type Path struct {
 	Blocks []*ssa.BasicBlock
-	Edges  []int // Edges[i] = successor index taken out of Blocks[i] (len = len(Blocks)-1)
+	Edges  []int           // Edges[i] = successor index taken out of Blocks[i] (len = len(Blocks)-1)
 	Next   *ssa.BasicBlock // for a path cut at a loop header: the header the last block jumps to (nil otherwise)
 }
 
